@@ -110,7 +110,10 @@ def _cells_child(shape: Shape, hist: List[Dict[str, Any]], root: str, env: Dict[
     from dds.store import MemoryStore
     os.makedirs(root, exist_ok=True)
     os.chdir(os.path.join(root, "cwd_" + env["cwd"]))
-    sh = InteractiveShell.instance()
+    from traitlets.config import Config
+    cfg = Config()
+    cfg.HistoryManager.hist_file = ":memory:"     # no shared sqlite file between concurrent workers
+    sh = InteractiveShell.instance(config=cfg)
     first = [r for r in hist if r["op"] == "eval"][0]["prog"]
     files = mat.files_of(shape, dict(first, layout="one"))
     with open(os.path.join(root, "_vlog.py"), "w") as f:
